@@ -13,6 +13,22 @@ def shard(args):
     bdir, wd, seed, s, nsh, n = args
     cases, meta = [], {}
     for i in range(s, n, nsh):
+        if i % 50 == 17:
+            # directed: a CONNECT (authority-form target: name, IPv4 or bracketed IPv6 literal, with a port) refused or accepted by the
+            # proxy - method, target, host and port are reported like those of any other request
+            r = grammar.Rng(seed * 7919 + i)
+            host = r.pick([grammar.gen_host(r), '10.%d.%d.%d' % (r.randrange(256), r.randrange(256), 1 + r.randrange(254)), '[2001:db8::%x]' % (1 + r.randrange(65535)), '[::1]', '[fe80::%x:1]' % r.randrange(65535)])
+            port = r.pick([443, 8443, 80, 8080, 1, 65535, 3128])
+            tgt = '%s:%d' % (host, port)
+            hh = r.pick(['Host: %s\r\n' % tgt, 'Host: %s\r\nProxy-Connection: keep-alive\r\n' % tgt, 'User-Agent: c02\r\nHost: %s\r\n' % tgt])
+            st = r.pick(['403 Forbidden', '407 Proxy Authentication Required', '502 Bad Gateway', '200 Connection established'])
+            rq = ('CONNECT %s HTTP/1.%d\r\n%s\r\n' % (tgt, r.randrange(2), hh)).encode()
+            rs = ('HTTP/1.1 %s\r\n%s\r\n' % (st, '' if st.startswith('200') else 'Content-Length: 0\r\n')).encode()
+            cfg = {'PERSONALITY': r.randrange(10), 'DUMP': hxb.DUMP_TX, 'TX_HOOKS': r.randrange(3), 'CFG_COPY': 1 if r.chance(0.1) else 0}
+            ops = [(hxb.REQ, rq), (hxb.RES, rs), (hxb.CLOSE, None)]
+            cases.append((i, cfg, ops))
+            meta[i] = (None, cfg, 'connect', ops, dict(host=host, port=port, target=tgt, status=int(st[:3])))
+            continue
         ex = grammar.gen_exchange(seed * 1000003 + i, {'res_fold': 'model', 'p_interim': 0.06})
         r = grammar.Rng(seed * 7919 + i)
         kind, ops = oracle.schedules(ex, r)
@@ -53,8 +69,31 @@ def shard(args):
         if not l.startswith('D '):
             continue
         d = json.loads(l[2:])
-        ex, cfg, kind, ops = meta[d['id']]
+        ex, cfg, kind, ops = meta[d['id']][:4]
         out['n'] += 1
+        if ex is None:
+            want = meta[d['id']][4]
+            t = (d.get('tx') or [None])[0]
+            out['nontrivial'].add(hashlib.sha1(ops[0][1] + ops[1][1]).digest()[:8])
+            out['feats']['connect'] = out['feats'].get('connect', 0) + 1
+            errs = []
+            if t is None:
+                errs.append(('connect_no_tx', 'no transaction'))
+            else:
+                if t['method'] != 'CONNECT' or t['uri'] != want['target']:
+                    errs.append(('connect_line', 'method %r target %r, sent CONNECT %r' % (t['method'], t['uri'], want['target'])))
+                if (t['hostname'] or '').lower() != want['host'].lower():
+                    errs.append(('connect_host', 'request_hostname %r, the authority names %r' % (t['hostname'], want['host'])))
+                if t['port'] != want['port']:
+                    errs.append(('connect_port', 'request_port_number %r, the authority says %d (target %r)' % (t['port'], want['port'], want['target'])))
+                if t['status_n'] != want['status']:
+                    errs.append(('connect_status', 'status %r, sent %d' % (t['status_n'], want['status'])))
+            for pv in d.get('viol', []):
+                out['monitor'].append((pv[0], pv[1], pv[2], d['id']))
+            for k, det in errs:
+                rp = fw.write_case_replay('C02', '%s-%d' % (k, d['id']), (d['id'], dict(cfg, DUMP=31), ops))
+                out['viol'].append((k, '%s [personality %d]' % (det, cfg['PERSONALITY']), rp))
+            continue
         errs = oracle.check_exchange(d, ex, cfg)
         nfields = sum(3 + len(q[1]['headers']) + len(p[1]['headers']) + 4 for q, p in zip(ex['reqs'], ex['ress']))
         out['fields'] += nfields
